@@ -2,7 +2,7 @@ CONSTANTS
  Members = {"m1","m2"}
  Topics = {"t1","t2"}
  NParts <- NP21
- SubsChoices = {{"t1"},{"t1","t2"}}
+ SubsChoices = {{"t2"},{"t1","t2"}}
  CommitTP <- CTP
  SessChoices = {2}
  RebT = 2
@@ -18,12 +18,12 @@ CONSTANTS
  DevJoinOkEarly = FALSE
  DevAssignAllMembers = FALSE
  DevRestoreDropsAsg = FALSE
- DevRestoreGenZero = TRUE
+ DevRestoreGenZero = FALSE
  DevExpireIgnoresHb = FALSE
  DevNoLaggerDrop = FALSE
  DevNoExpire = FALSE
  DevLaggerSkippedOnExpiry = FALSE
- DevSyncRefusesIdle = FALSE
+ DevSyncRefusesIdle = TRUE
  DevHbWriteUnlocked = FALSE
  DevCleanupWriteUnlocked = FALSE
  DevSyncLookupUnlocked = FALSE
